@@ -57,7 +57,7 @@ def required_cells(tier):
               "comment-marker-in-literal", "quote-in-comment", "no-final-newline", "class:E1", "class:E2", "class:R",
               "via-FileParser", "gcc-crosscheck", "crlf-line-ends", "class:LONG", "line>65536",
               "c-header-first-reached-from-fortran", "unusual-line-break-characters", "coverage-export-of-identical-files",
-              "literal-in-diagnostic-directive", "class:CARRY", "file-rewritten-with-equal-size-and-mtime:>=32KiB"]
+              "literal-in-diagnostic-directive", "class:CARRY", "file-rewritten-with-equal-size-and-mtime:>=32KiB", "tree-report-of-files-nothing-compiles", "identifier-ending-in-R-before-a-string"]
     cells += ["long-plain-line-after:" + n for n, _ in CARRY_HEADS] + ["ext:" + e for e in C_FAMILY_EXTS]
     return cells
 
@@ -243,6 +243,10 @@ def check_text(ctx, text, cls, work, sample_rng, via_file=False):
         if not problems and cls == "R" and len(text) % 40 == 7 and "#" not in text and ref.counted:
             problems = coverage_twins_check(ctx, text, ref, work)
             cells.add("coverage-export-of-identical-files")
+        if not problems and cls == "R" and len(text) % 40 == 11 and "#" not in text and ref.counted and max(ref.counted) > len(ref.counted):
+            # (a text with blank or comment-only lines before its last code line)
+            problems = tree_of_unused_files_check(ctx, text, ref, work)
+            cells.add("tree-report-of-files-nothing-compiles")
         if not problems and cls == "R" and len(text) % 5 == 1 and "#" not in text:
             problems = mixed_language_check(ctx, text, ref, work)
             cells.add("c-header-first-reached-from-fortran")
@@ -326,6 +330,39 @@ def coverage_twins_check(ctx, text, ref, work):
             problems.append({"kind": "coverage export of one of two identical files", "file": rel, "expected": ref.counted, "observed": got})
     if "other.c" not in cov:
         problems.append({"kind": "coverage export misses a file", "file": "other.c"})
+    return problems
+
+
+def tree_of_unused_files_check(ctx, text, ref, work):
+    """cbi-tree on a directory where the text is a file that nothing compiles (beside a compiled one holding the same
+    text): the tree's SLOC figure of each file is the number of counted lines of its text."""
+    import json
+    from cbimon import cli
+    d = os.path.join(work, "treecase")
+    shutil.rmtree(d, ignore_errors=True)
+    os.makedirs(os.path.join(d, "sub"))
+    for rel in ("unused.c", "sub/compiled.c"):
+        with open(os.path.join(d, rel), "w") as f:
+            f.write(text)
+    with open(os.path.join(d, "db.json"), "w") as f:
+        json.dump([{"file": "sub/compiled.c", "directory": d, "arguments": ["gcc", "-c", "sub/compiled.c"]}], f)
+    with open(os.path.join(d, "empty.json"), "w") as f:
+        f.write("[]")
+    problems = []
+    for toml_text, tag in (('[platform.p]\ncommands = "db.json"\n', "one-platform"), ('[platform.p]\ncommands = "empty.json"\n', "nothing-compiled")):
+        with open(os.path.join(d, "analysis.toml"), "w") as f:
+            f.write(toml_text)
+        rc, out, err = cli.run("cbi-tree", ["analysis.toml"], d)
+        ctx.acc.hook("cli-runs")
+        if rc != 0:
+            problems.append({"kind": "cbi-tree failed", "case": tag, "stderr": err[-300:]})
+            continue
+        legend, rows = cli.parse_tree(out)
+        byname = {r["name"]: r for r in rows}
+        for nm in ("unused.c", "compiled.c"):
+            got = byname.get(nm, {}).get("sloc")
+            if len(ref.counted) < 1000 and got != str(len(ref.counted)):
+                problems.append({"kind": "cbi-tree SLOC of a file", "case": tag, "file": nm, "expected": len(ref.counted), "observed": got})
     return problems
 
 
@@ -500,6 +537,15 @@ def run_shard(ctx):
         if ctx.mine(i):
             ctx.acc.cells["long-plain-line-after:" + name] += 1
             check_text(ctx, t, "CARRY", work, srng, via_file=True)
+    # FIXED: hand-written texts around identifiers that end in a letter some lexers treat as a literal prefix (R, L, u8)
+    # directly followed by a quote -- in C these are an identifier and a string (the "%"PRIdPTR"\\n" pattern)
+    fixed = ["a \"b\"PTR\"c\" /* d\ne */\nint f;\n", "#define M STR\"a\" /* b\nc */ 1\nint g;\n", "x = R\"y\"; /* c\n c */ z;\n",
+             "printf(\"%\"PRIdPTR\"\\n\", p); // c \\\n still comment\ncode;\n", "s = xR\"(\"; /* ) */ t;\n/* u\n*/ v;\n", "w = L\"a\" u8\"b\" U\"c\" R \"d\"; /*\n*/\n",
+             "#if FOOR\"x\" /* c\n*/ == 0\nint h;\n#endif\n", "R\"\n\"; /* x */\ny;\n" if False else "q = BAR\"\" \"\"R; /* e\n f */\n"]
+    for i, t in enumerate(fixed):
+        if ctx.mine(i):
+            ctx.acc.cells["identifier-ending-in-R-before-a-string"] += 1
+            check_text(ctx, t, "FIXED", work, srng, via_file=True)
     rewritten_file_check(ctx, work)
     # LONG: physical lines longer than any plausible read buffer
     rng = ctx.rng("long")
